@@ -32,29 +32,29 @@ void h_fe_mul_inner(void) {
     if (!alias && a[0] == (((limb_t)1) << (SA_FE_LIMB_BITS + 4)) - 1 && b[NLIMB - 1] == (((limb_t)1) << (SA_FE_TOP_BITS + 4)) - 1) REACH("fe_mul_inner maximal limbs");
 }
 void h_fe_sqr_inner(void) {
-    INPUT_ARR(limb_t, a, NLIMB); INPUT(_Bool, alias);
-    limb_t rr[NLIMB], *r = alias ? a : rr;
-    __CPROVER_assume(in_ok(a));
-    secp256k1_fe_sqr_inner(r, a);
+    INPUT_ARR(limb_t, sq, NLIMB); INPUT(_Bool, alias);
+    limb_t rr[NLIMB], *r = alias ? sq : rr;
+    __CPROVER_assume(in_ok(sq));
+    secp256k1_fe_sqr_inner(r, sq);
     __CPROVER_assert(out_mag1(r), "C05 fe_sqr_inner: output limbs have magnitude 1");
-    if (alias) REACH("fe_sqr_inner r aliases a");
-    if (!alias && a[0] == (((limb_t)1) << (SA_FE_LIMB_BITS + 4)) - 1 && a[NLIMB - 1] == (((limb_t)1) << (SA_FE_TOP_BITS + 4)) - 1) REACH("fe_sqr_inner maximal limbs");
+    if (alias) REACH("fe_sqr_inner r aliases sq");
+    if (!alias && sq[0] == (((limb_t)1) << (SA_FE_LIMB_BITS + 4)) - 1 && sq[NLIMB - 1] == (((limb_t)1) << (SA_FE_TOP_BITS + 4)) - 1) REACH("fe_sqr_inner maximal limbs");
 }
 #if !defined(USE_FORCE_WIDEMUL_INT64)
 /* (B) of assumed_C05.h holds for the REAL multiplier (real bodies of u128_mul / u128_accum_mul, nothing replaced) */
 void h_umul_axioms(void) {
-    INPUT(uint64_t, a); INPUT(uint64_t, b);
+    INPUT(uint64_t, ua); INPUT(uint64_t, ub);
     secp256k1_uint128 t; sa_u128_t v;
-    secp256k1_u128_mul(&t, a, b);
+    secp256k1_u128_mul(&t, ua, ub);
     v = ((sa_u128_t)secp256k1_u128_hi_u64(&t) << 64) | secp256k1_u128_to_u64(&t);
-    __CPROVER_assert(((a >> 56) == 0 && (b >> 56) == 0 ==> (v >> 112) == 0), "C05 umul axiom: 56 x 56 bits < 2^112");
-    __CPROVER_assert(((a >> 57) == 0 && (b >> 56) == 0 ==> (v >> 113) == 0), "C05 umul axiom: 57 x 56 bits < 2^113");
-    __CPROVER_assert(((a >> 56) == 0 && (b >> 53) == 0 ==> (v >> 109) == 0) && ((a >> 53) == 0 && (b >> 56) == 0 ==> (v >> 109) == 0), "C05 umul axiom: 56 x 53 bits < 2^109");
-    __CPROVER_assert(((a >> 56) == 0 && (b >> 52) == 0 ==> (v >> 108) == 0) && ((a >> 52) == 0 && (b >> 56) == 0 ==> (v >> 108) == 0), "C05 umul axiom: 56 x 52 bits < 2^108");
-    __CPROVER_assert(((a >> 57) == 0 && (b >> 52) == 0 ==> (v >> 109) == 0), "C05 umul axiom: 57 x 52 bits < 2^109");
-    __CPROVER_assert(((a >> 53) == 0 && (b >> 52) == 0 ==> (v >> 105) == 0), "C05 umul axiom: 53 x 52 bits < 2^105");
-    __CPROVER_assert(((a >> 52) == 0 && (b >> 52) == 0 ==> (v >> 104) == 0), "C05 umul axiom: 52 x 52 bits < 2^104");
-    if ((a >> 56) == 0 && (b >> 56) == 0 && (v >> 111) != 0) REACH("umul axiom 56x56 tight");
+    __CPROVER_assert(((ua >> 56) == 0 && (ub >> 56) == 0 ==> (v >> 112) == 0), "C05 umul axiom: 56 x 56 bits < 2^112");
+    __CPROVER_assert(((ua >> 57) == 0 && (ub >> 56) == 0 ==> (v >> 113) == 0), "C05 umul axiom: 57 x 56 bits < 2^113");
+    __CPROVER_assert(((ua >> 56) == 0 && (ub >> 53) == 0 ==> (v >> 109) == 0) && ((ua >> 53) == 0 && (ub >> 56) == 0 ==> (v >> 109) == 0), "C05 umul axiom: 56 x 53 bits < 2^109");
+    __CPROVER_assert(((ua >> 56) == 0 && (ub >> 52) == 0 ==> (v >> 108) == 0) && ((ua >> 52) == 0 && (ub >> 56) == 0 ==> (v >> 108) == 0), "C05 umul axiom: 56 x 52 bits < 2^108");
+    __CPROVER_assert(((ua >> 57) == 0 && (ub >> 52) == 0 ==> (v >> 109) == 0), "C05 umul axiom: 57 x 52 bits < 2^109");
+    __CPROVER_assert(((ua >> 53) == 0 && (ub >> 52) == 0 ==> (v >> 105) == 0), "C05 umul axiom: 53 x 52 bits < 2^105");
+    __CPROVER_assert(((ua >> 52) == 0 && (ub >> 52) == 0 ==> (v >> 104) == 0), "C05 umul axiom: 52 x 52 bits < 2^104");
+    if ((ua >> 56) == 0 && (ub >> 56) == 0 && (v >> 111) != 0) REACH("umul axiom 56x56 tight");
 }
 #endif
 #endif
